@@ -63,6 +63,8 @@ class VolumeOf(Contract):
             "dirname preserves that; the solvers left the inductive step "
             "undecided, so it is stated, not proved)")
         ctx.assume(rooted(r))
+        if ctx.ghost.get('volume_no_shape_fork'):
+            return Sym(r, 'str')
         if ctx.branch(r == SV('/'), 'volume-is-root'):
             return '/'
         if ctx.branch(r == SV('//'), 'volume-is-slashslash'):
